@@ -101,20 +101,23 @@ Proof.
     destruct (decode_bytes acc2 b) as [o2 acc3]. rewrite app_assoc. reflexivity.
 Qed.
 
-(* ---- the per-character check, decided by computation over the generated tables ---- *)
-Definition char_ok (c : str) : bool :=
+(* ---- the per-character checks, decided by computation over the generated tables ---- *)
+(* [enc_ok c]: c is valid UTF-8, its decomposition starts with a starter that pushes a byte and is canonically
+   ordered: the encoder then treats c independently of its neighbours *)
+Definition enc_ok (c : str) : bool :=
   match utf8_decode c with
   | None => false
   | Some rs =>
     match flat_map nfd_rune rs with
     | [] => false
-    | r0 :: d =>
-      (stl_cccv r0 =? 0) && pushes r0 &&
-      str_eqb (fold_left insf (r0 :: d) []) (rev (r0 :: d)) &&
-      (let '(o, acc) := decode_bytes None (rev (fold_left enc_step (r0 :: d) [])) in
-       str_eqb o c && match acc with None => true | Some _ => false end)
+    | r0 :: d => (stl_cccv r0 =? 0) && pushes r0 && str_eqb (fold_left insf (r0 :: d) []) (rev (r0 :: d))
     end
   end.
+(* [char_ok c]: moreover the reader decodes the bytes written for c back to c, leaving no accent pending *)
+Definition char_ok (c : str) : bool :=
+  enc_ok c &&
+  (let '(o, acc) := decode_bytes None (encode_text_stl c) in
+   str_eqb o c && match acc with None => true | Some _ => false end).
 
 (* the repertoire: every spacing character of the Latin table and every spacing character carrying one floating
    diacritic (as the reader composes it), except those built on '$' *)
@@ -130,50 +133,75 @@ Lemma repertoire_ok : forallb char_ok stl_repertoire = true.
 Proof. vm_compute. reflexivity. Qed.
 
 (* ---- lifting to strings ---- *)
-Record char_facts (c : str) (rs d e : list N) : Prop := {
+Record enc_facts (c : str) (rs d e : list N) : Prop := {
   cf_dec : utf8_decode c = Some rs;
   cf_nfd : flat_map nfd_rune rs = d;
   cf_ord : forall o, fold_left insf d o = rev d ++ o;
-  cf_enc : forall o, fold_left enc_step d o = rev e ++ o;
-  cf_back : decode_bytes None e = (c, None) }.
+  cf_enc : forall o, fold_left enc_step d o = rev e ++ o }.
 
-Lemma char_ok_facts c : char_ok c = true -> exists rs d e, char_facts c rs d e.
+Lemma encode_of_facts c rs d e : utf8_decode c = Some rs -> flat_map nfd_rune rs = d ->
+  (forall o, fold_left insf d o = rev d ++ o) -> (forall o, fold_left enc_step d o = rev e ++ o) -> encode_text_stl c = e.
 Proof.
-  unfold char_ok. destruct (utf8_decode c) as [rs|] eqn:Hd; [|discriminate].
+  intros D Nf O E. unfold encode_text_stl. rewrite D. unfold nfd_runes, enc_runes.
+  rewrite canonical_order_fold, Nf, O, app_nil_r, rev_involutive, E, app_nil_r, rev_involutive. reflexivity.
+Qed.
+
+Lemma enc_ok_facts c : enc_ok c = true -> exists rs d, enc_facts c rs d (encode_text_stl c).
+Proof.
+  unfold enc_ok. destruct (utf8_decode c) as [rs|] eqn:Hd; [|discriminate].
   destruct (flat_map nfd_rune rs) as [|r0 d] eqn:Hn; [discriminate|].
-  intros H. apply andb_true_iff in H. destruct H as [H Hb]. apply andb_true_iff in H. destruct H as [H Ho].
+  intros H. apply andb_true_iff in H. destruct H as [H Ho].
   apply andb_true_iff in H. destruct H as [Hs Hp]. apply N.eqb_eq in Hs. apply str_eqb_eq in Ho.
-  exists rs, (r0 :: d), (rev (fold_left enc_step (r0 :: d) [])).
-  destruct (decode_bytes None (rev (fold_left enc_step (r0 :: d) []))) as [o acc] eqn:Hdb.
-  apply andb_true_iff in Hb. destruct Hb as [Hb1 Hb2]. apply str_eqb_eq in Hb1. destruct acc; [discriminate|]. subst o.
-  constructor.
-  - exact Hd.
-  - exact Hn.
-  - intros o. rewrite (fold_ins_from_starter r0 d o Hs), Ho. reflexivity.
-  - intros o. rewrite (fold_enc_from_pusher r0 d o Hp), rev_involutive. reflexivity.
-  - exact Hdb.
+  assert (O : forall o, fold_left insf (r0 :: d) o = rev (r0 :: d) ++ o).
+  { intros o. rewrite (fold_ins_from_starter r0 d o Hs), Ho. reflexivity. }
+  assert (E : forall o, fold_left enc_step (r0 :: d) o = rev (rev (fold_left enc_step (r0 :: d) [])) ++ o).
+  { intros o. rewrite (fold_enc_from_pusher r0 d o Hp), rev_involutive. reflexivity. }
+  exists rs, (r0 :: d). rewrite (encode_of_facts c rs (r0 :: d) _ Hd Hn O E).
+  constructor; assumption.
 Qed.
 
 Lemma flat_map_app' {A B} (f : A -> list B) l1 l2 : flat_map f (l1 ++ l2) = flat_map f l1 ++ flat_map f l2.
 Proof. induction l1 as [|a l1 IH]; cbn [app flat_map]; [reflexivity|]. rewrite IH, app_assoc. reflexivity. Qed.
 
-(* the state of the three pipelines after a prefix made of repertoire characters *)
-Lemma chars_facts cs : Forall (fun c => char_ok c = true) cs ->
-  exists rs d e,
-    utf8_decode (concat cs) = Some rs /\ flat_map nfd_rune rs = d /\
-    (forall o, fold_left insf d o = rev d ++ o) /\ (forall o, fold_left enc_step d o = rev e ++ o) /\
-    decode_bytes None e = (concat cs, None).
+(* the state of the pipelines after a prefix of independent characters *)
+Lemma chars_facts cs : Forall (fun c => enc_ok c = true) cs ->
+  exists rs d, enc_facts (concat cs) rs d (concat (map encode_text_stl cs)).
 Proof.
   induction cs as [|c cs IH]; intros H.
-  - exists [], [], []. cbn. repeat split; reflexivity.
-  - inversion H as [|? ? Hc Hcs]; subst. destruct (IH Hcs) as (rs2 & d2 & e2 & D2 & N2 & O2 & E2 & B2).
-    destruct (char_ok_facts c Hc) as (rs1 & d1 & e1 & [D1 N1 O1 E1 B1]).
-    exists (rs1 ++ rs2), (d1 ++ d2), (e1 ++ e2). cbn [concat]. repeat split.
+  - exists [], []. constructor; cbn; reflexivity.
+  - inversion H as [|? ? Hc Hcs]; subst. destruct (IH Hcs) as (rs2 & d2 & [D2 N2 O2 E2]).
+    destruct (enc_ok_facts c Hc) as (rs1 & d1 & [D1 N1 O1 E1]).
+    exists (rs1 ++ rs2), (d1 ++ d2). cbn [concat map]. constructor.
     + apply utf8_decode_app; assumption.
     + rewrite flat_map_app', N1, N2. reflexivity.
     + intros o. rewrite fold_left_app, O1, O2, rev_app_distr, <- app_assoc. reflexivity.
     + intros o. rewrite fold_left_app, E1, E2, rev_app_distr, <- app_assoc. reflexivity.
-    + rewrite decode_bytes_app, B1, B2. reflexivity.
+Qed.
+
+(* the encoder works character by character on strings of independent characters (repertoire characters, and
+   also the control characters the writer inserts: U+0080..U+0085, U+008A, space) *)
+Theorem encode_concat_gen cs : Forall (fun c => enc_ok c = true) cs ->
+  encode_text_stl (concat cs) = concat (map encode_text_stl cs).
+Proof.
+  intros H. destruct (chars_facts cs H) as (rs & d & [D Nf O E]). exact (encode_of_facts _ rs d _ D Nf O E).
+Qed.
+
+Lemma char_ok_enc_ok c : char_ok c = true -> enc_ok c = true.
+Proof. unfold char_ok. intros H. apply andb_true_iff in H. tauto. Qed.
+Lemma char_ok_back c : char_ok c = true -> decode_bytes None (encode_text_stl c) = (c, None).
+Proof.
+  unfold char_ok. intros H. apply andb_true_iff in H. destruct H as [_ H].
+  destruct (decode_bytes None (encode_text_stl c)) as [o acc]. apply andb_true_iff in H. destruct H as [H1 H2].
+  apply str_eqb_eq in H1. destruct acc; [discriminate|]. subst o. reflexivity.
+Qed.
+Lemma rep_char_ok c : In c stl_repertoire -> char_ok c = true.
+Proof. exact (proj1 (forallb_forall _ _) repertoire_ok c). Qed.
+
+Lemma decode_concat cs : Forall (fun c => char_ok c = true) cs ->
+  decode_bytes None (concat (map encode_text_stl cs)) = (concat cs, None).
+Proof.
+  induction cs as [|c cs IH]; intros H; [reflexivity|]. inversion H as [|? ? Hc Hcs]; subst.
+  cbn [map concat]. rewrite decode_bytes_app, (char_ok_back c Hc), (IH Hcs). reflexivity.
 Qed.
 
 (* decode (encode s) = s, with no accent left pending, for every string over the repertoire *)
@@ -181,32 +209,15 @@ Theorem codec_roundtrip cs : Forall (fun c => In c stl_repertoire) cs ->
   decode_bytes None (encode_text_stl (concat cs)) = (concat cs, None).
 Proof.
   intros H.
-  assert (Hok : Forall (fun c => char_ok c = true) cs).
-  { eapply Forall_impl; [|exact H]. intros c Hin. exact (proj1 (forallb_forall _ _) repertoire_ok c Hin). }
-  destruct (chars_facts cs Hok) as (rs & d & e & D & Nf & O & E & B).
-  unfold encode_text_stl. rewrite D. unfold nfd_runes, enc_runes. rewrite canonical_order_fold, Nf, O, app_nil_r, rev_involutive.
-  rewrite E, app_nil_r, rev_involutive. exact B.
+  assert (Hok : Forall (fun c => char_ok c = true) cs) by (eapply Forall_impl; [|exact H]; exact rep_char_ok).
+  rewrite encode_concat_gen by (eapply Forall_impl; [|exact Hok]; exact char_ok_enc_ok).
+  apply decode_concat. exact Hok.
 Qed.
 
-(* the encoder's image of a repertoire string, character by character (used by the row theorems) *)
 Theorem encode_concat cs : Forall (fun c => In c stl_repertoire) cs ->
   encode_text_stl (concat cs) = concat (map encode_text_stl cs).
 Proof.
-  intros H.
-  assert (Hok : Forall (fun c => char_ok c = true) cs).
-  { eapply Forall_impl; [|exact H]. intros c Hin. exact (proj1 (forallb_forall _ _) repertoire_ok c Hin). }
-  clear H. induction cs as [|c cs IH]; [reflexivity|].
-  inversion Hok as [|? ? Hc Hcs]; subst. specialize (IH Hcs).
-  destruct (chars_facts cs Hcs) as (rs2 & d2 & e2 & D2 & N2 & O2 & E2 & _).
-  destruct (char_ok_facts c Hc) as (rs1 & d1 & e1 & [D1 N1 O1 E1 _]).
-  assert (Ecs : encode_text_stl (concat cs) = e2).
-  { unfold encode_text_stl. rewrite D2. unfold nfd_runes, enc_runes. rewrite canonical_order_fold, N2, O2, app_nil_r, rev_involutive, E2, app_nil_r, rev_involutive. reflexivity. }
-  assert (Ec : encode_text_stl c = e1).
-  { unfold encode_text_stl. rewrite D1. unfold nfd_runes, enc_runes. rewrite canonical_order_fold, N1, O1, app_nil_r, rev_involutive, E1, app_nil_r, rev_involutive. reflexivity. }
-  cbn [concat map]. rewrite <- IH, Ecs, Ec.
-  unfold encode_text_stl. rewrite (utf8_decode_app c (concat cs) rs1 rs2 D1 D2). unfold nfd_runes, enc_runes.
-  rewrite canonical_order_fold, flat_map_app', N1, N2, fold_left_app, O1, O2, app_nil_r, <- rev_app_distr, rev_involutive.
-  rewrite fold_left_app, E1, E2, app_nil_r, <- rev_app_distr, rev_involutive. reflexivity.
+  intros H. apply encode_concat_gen. eapply Forall_impl; [|exact H]. intros c Hc. apply char_ok_enc_ok, rep_char_ok, Hc.
 Qed.
 
 (* '$' does not survive: it is written as 0x24, which the table reads as the currency sign *)
